@@ -264,9 +264,11 @@ def parser_actions(variant):
     with _argv([]), contextlib.redirect_stdout(io.StringIO()):
         parser, _ = get_parser(**CTRL[variant])
     out = {}
-    for a in parser._actions:
+    for a in getattr(parser, "_actions", []):  # (argparse's own list of actions)
         for o in a.option_strings:
             out[o] = a
+    if not out:
+        raise HookUnavailable("argparse.ArgumentParser._actions")
     return out
 
 
@@ -304,20 +306,37 @@ def real_parse(variant, conf_path=None, argv=None):
     return o
 
 
-def branch_outcome(tag, value):
-    """What the branch of `_parse_conf` for conf key `tag` does with `value`: ordered list of
-    (parameter key, value), or None when it stops with `setting_error`."""
+class HookUnavailable(Exception):
+    """a private attribute / method of /repo that the harness uses as model input is not there (renamed, restructured)"""
+
+
+def branch_outcome(tag, value, names=None):
+    """What the branch of the subclass parse method for conf key `tag` does with `value`: ordered list of
+    (parameter key, value), or None when it stops with `setting_error`.  The private names (confs / parameters
+    attributes, the parse method) are those the translator found through the public call graph."""
     from phonopy.cui.settings import PhonopyConfParser
 
+    names = names or {}
+    confs_attr = names.get("_confs", "_confs")
+    params_attr = names.get("_parameters", "_parameters")
+    parse_name = names.get("method_parse_conf", "_parse_conf")
     p = PhonopyConfParser()
-    p._confs = {tag: value}
-    p._parameters = {}
+    if not callable(getattr(p, parse_name, None)):
+        raise HookUnavailable("PhonopyConfParser.%s / .%s / .%s()" % (confs_attr, params_attr, parse_name))
+    setattr(p, confs_attr, {tag: value})
+    setattr(p, params_attr, {})
     try:
         with contextlib.redirect_stdout(io.StringIO()):
-            p._parse_conf()
+            getattr(p, parse_name)()
     except SystemExit:
         return None
-    return list(p._parameters.items())
+    except (AttributeError, TypeError, KeyError) as e:
+        import traceback
+
+        if not any("phonopy" in f.filename and f.name not in ("__init__",) and f.lineno for f in traceback.extract_tb(e.__traceback__)[1:]):
+            raise HookUnavailable("PhonopyConfParser.%s(): %s: %s" % (parse_name, type(e).__name__, e))
+        raise
+    return list(getattr(p, params_attr).items())
 
 
 def write_conf(path, lines):
@@ -398,7 +417,7 @@ class Tokens:
             return "t" if text.lower() == ".true." else "f"
         if tag not in self.tab.rule_of_tag:
             return "o 0"
-        o = branch_outcome(tag, text)
+        o = branch_outcome(tag, text, self.tab.tb.get("private_names"))
         if o is None:
             return None
         return "o %d%s" % (len(o), "".join(" %d %s" % (self.tab.key_id[k], self.val(v)) for k, v in o))
